@@ -54,6 +54,30 @@ func (fr *Frame) execBlock(b *ssa.BasicBlock, st *State) {
 	}
 }
 
+// holdsArray: does a value of type t contain an array (into which a slice could point)?
+func holdsArray(t types.Type, depth int) bool {
+	if depth > 8 {
+		return true
+	}
+	switch tt := types.Unalias(t).Underlying().(type) {
+	case *types.Array:
+		return true
+	case *types.Struct:
+		for i := 0; i < tt.NumFields(); i++ {
+			if holdsArray(tt.Field(i).Type(), depth+1) {
+				return true
+			}
+		}
+		return false
+	case *types.TypeParam:
+		return true
+	}
+	if _, isTP := types.Unalias(t).(*types.TypeParam); isTP {
+		return true
+	}
+	return false
+}
+
 func (fr *Frame) execInstr(in ssa.Instruction, st *State, r string) {
 	vc := fr.vc
 	switch x := in.(type) {
@@ -83,6 +107,12 @@ func (fr *Frame) execInstr(in ssa.Instruction, st *State, r string) {
 		fr.regs[x] = []string{ref, "0"}
 		if fr.nonEsc[x] {
 			fr.protected = append(fr.protected, ref)
+		}
+		if !holdsArray(elem, 0) {
+			// the cell of a variable without array components: no slice points into it (guarded by the path,
+			// as the same address is a different object on another path)
+			vc.declFun("isCell", []Sort{SInt}, SBool)
+			vc.assert(sImp(r, app("isCell", ref)))
 		}
 	case *ssa.MakeSlice:
 		elem := x.Type().Underlying().(*types.Slice).Elem()
